@@ -423,6 +423,9 @@ def op_submpo(s, a):
     d0 = dense(s.psi)
     G = gate_matrix(seed, len(where), s.d, "gauss", s.dtype)
     mpo = qtn.MatrixProductOperator.from_dense(G, dims=[s.d] * len(where), sites=where, L=L)
+    # the operator applied is the MPO as built: from_dense's default cutoff (1e-10) can truncate an ill-conditioned gate's own
+    # decomposition (6e-7 on a 9x9 gauss gate, found by the libFuzzer campaign at seed 2) - that error is the harness's
+    G = np.asarray(mpo.to_dense()).reshape(G.shape)
     # (single-site regions crash in every non-direct 1D compressor, and zipup-first needs all site tags: both are
     #  compression-domain observations outside this property; only the documented default is used there)
     method = ["direct", "dm", "zipup", "fit", "src", "direct"][method_i % 6] if len(where) > 1 else "direct"
